@@ -1,2 +1,1034 @@
-use vh_common::Args;
-pub fn run(_args: &Args) { unimplemented!() }
+//! C23 — live-mode forwarding through the real `TopicSyncManager`.
+//!
+//! One flow: a real manager on a real `SqliteStore`, 2–5 live sessions on topic A, 1–2 live
+//! sessions on topic B, optionally a non-live session on A; some sessions are created before
+//! `subscribe()`, some after. Every session runs the real `TopicLogSync::run`; its remote end is
+//! the harness (an injectable stream, a recording sink). A task drains the manager event stream
+//! (which is what performs the forwarding), one task per session records the session's own
+//! broadcast events. After every session reported `LiveModeStarted` a seeded schedule is played:
+//! a remote sends `Live(op)` into a session, the application publishes an op through
+//! `session_handle`, re-injections of earlier ops from the same or other sessions (duplicates),
+//! a remote leaves with `Close`; actions are separated by nothing, a few yields, or quiescence.
+//!
+//! Quiescence (never a bare sleep):
+//!   * `paused` flows run on a current-thread runtime whose clock is paused once live mode is
+//!     reached; a virtual `sleep` then returns only when *every* task is idle, so whatever is
+//!     missing afterwards will never arrive — missing forwards are decided on state.
+//!   * `mt` flows run on a multi-thread runtime (real schedule diversity); quiescence is decided
+//!     by counters: wait until the ledger's completeness predicate holds, then send one marker op
+//!     through every session and wait for the markers — every path is FIFO, so anything still in
+//!     flight arrives before the marker. A watchdog here is `inconclusive`, never a verdict.
+//!
+//! Ledger oracle per operation X at final quiescence (sent[s] = `Live(X)` on s's sink, ev[s] =
+//! `OperationReceived(X)` on s's own channel, mgr = occurrences on the manager stream):
+//!   1. sent[s] <= 1                                   (at most once per session)
+//!   2. not (sent[s] >= 1 and ev[s] >= 1)              (never back to the peer it came from: a
+//!      session that accepted X from its remote must not send it, and one that already sent it
+//!      must drop the remote's copy; the order in the witness says which)
+//!   3. sessions of another topic never send X
+//!   4. if some session accepted X from its remote (ev >= 1): every other live session of the
+//!      topic sent it exactly once, and mgr == 1; in any case mgr <= 1
+//!   5. a session whose remote sent X either accepted it or had already sent it (not swallowed)
+//!   6. (mechanism level) a tap between the manager-side sender and the session's live receiver
+//!      (both public fields) records what the manager side hands to session s: at most one copy
+//!      per *other* session that reported X plus the local publishes to s. Without it the
+//!      mutation "forward to the source session as well" is invisible on the wire, because the
+//!      session's own window swallows the copy.
+//! Recorded, not judged: delivery of purely local publishes, metrics, sync-phase traffic.
+//! A second workload (c23w.rs) covers clause 1/2 with small windows that actually evict.
+
+use std::collections::{BTreeMap, BTreeSet};
+use std::pin::Pin;
+use std::sync::atomic::{AtomicU64, Ordering};
+use std::sync::{Arc, Mutex};
+use std::task::{Context, Poll};
+use std::time::{Duration, Instant};
+
+use futures_channel::mpsc;
+use futures_util::{Sink, SinkExt, StreamExt};
+use p2panda_core::{Body, Hash, Operation, SigningKey, Topic};
+use p2panda_store::SqliteStore;
+use p2panda_sync::protocols::{LogSyncMessage, TopicLogSyncEvent};
+use p2panda_sync::test_utils::{
+    Peer, TestTopicSyncManager, TestTopicSyncMessage as Msg, create_operation,
+};
+use p2panda_sync::traits::{Manager, Protocol};
+use p2panda_sync::{SessionConfig, ToSync};
+use serde::Serialize;
+use tokio::sync::broadcast;
+use vh_common::{Args, Report, Rng, Tier, Value, json};
+
+// ------------------------------------------------------------------------------------------
+// Flow specification
+// ------------------------------------------------------------------------------------------
+
+#[derive(Clone, Debug, Serialize)]
+enum Action {
+    /// The remote of `session` sends `Live(op)`.
+    Remote { session: usize, op: usize },
+    /// The application publishes `op` through the handles of `sessions`.
+    Local { sessions: Vec<usize>, op: usize },
+    Yield(u8),
+    Quiesce,
+    /// The remote of `session` sends `Close`; the session ends.
+    Leave { session: usize },
+}
+
+#[derive(Clone, Debug, Serialize)]
+struct FlowSpec {
+    flow_no: u64,
+    mt: bool,
+    /// topic index (0 = A, 1 = B) of every session; index = session id
+    topics: Vec<usize>,
+    live: Vec<bool>,
+    /// sessions with id < this are created before `subscribe()`
+    created_before_subscribe: usize,
+    n_ops: usize,
+    actions: Vec<Action>,
+}
+
+fn gen_flow(seed: u64, flow_no: u64, tier: Tier, force_mt: Option<bool>) -> FlowSpec {
+    let mut rng = Rng::fork(seed, flow_no);
+    let n_a = 2 + rng.usize_below(4);
+    let n_b = 1 + rng.usize_below(2);
+    let nonlive_a = rng.chance(0.3);
+    let mut topics = Vec::new();
+    let mut live = Vec::new();
+    for _ in 0..n_a {
+        topics.push(0);
+        live.push(true);
+    }
+    for _ in 0..n_b {
+        topics.push(1);
+        live.push(true);
+    }
+    if nonlive_a {
+        topics.push(0);
+        live.push(false);
+    }
+    // shuffle session order so that ids of the two topics interleave
+    let mut order: Vec<usize> = (0..topics.len()).collect();
+    rng.shuffle(&mut order);
+    let topics: Vec<usize> = order.iter().map(|&i| topics[i]).collect();
+    let live: Vec<bool> = order.iter().map(|&i| live[i]).collect();
+    let n = topics.len();
+    let created_before_subscribe = match rng.below(3) {
+        0 => 0,
+        1 => n,
+        _ => rng.usize_below(n + 1),
+    };
+    let mt = force_mt.unwrap_or_else(|| rng.chance(0.25));
+
+    let target_ops = match tier {
+        Tier::Quick => 20 + rng.usize_below(60),
+        Tier::Thorough => 20 + rng.usize_below(181),
+    };
+    let live_of = |t: usize, gone: &BTreeSet<usize>| -> Vec<usize> {
+        (0..n)
+            .filter(|&s| topics[s] == t && live[s] && !gone.contains(&s))
+            .collect()
+    };
+    let mut actions = Vec::new();
+    let mut op_topic: Vec<usize> = Vec::new();
+    let mut gone: BTreeSet<usize> = BTreeSet::new();
+    let leave_at = if rng.chance(0.25) && n_a >= 3 {
+        Some(target_ops / 2)
+    } else {
+        None
+    };
+    let dup_rate = *rng.pick(&[0.2, 0.5, 0.8]);
+    let burst = rng.chance(0.3);
+    while op_topic.len() < target_ops {
+        if Some(op_topic.len()) == leave_at && gone.is_empty() {
+            let cands = live_of(0, &gone);
+            let s = *rng.pick(&cands);
+            actions.push(Action::Quiesce);
+            actions.push(Action::Leave { session: s });
+            actions.push(Action::Quiesce);
+            gone.insert(s);
+        }
+        let reinject = !op_topic.is_empty() && rng.chance(dup_rate);
+        let op = if reinject {
+            // mostly recent operations, sometimes any
+            if rng.chance(0.7) {
+                op_topic.len() - 1 - rng.usize_below(op_topic.len().min(4))
+            } else {
+                rng.usize_below(op_topic.len())
+            }
+        } else {
+            op_topic.push(if rng.chance(0.8) { 0 } else { 1 });
+            op_topic.len() - 1
+        };
+        let cands = live_of(op_topic[op], &gone);
+        if rng.chance(0.75) {
+            actions.push(Action::Remote {
+                session: *rng.pick(&cands),
+                op,
+            });
+        } else {
+            let sessions: Vec<usize> = if rng.chance(0.7) {
+                cands.clone()
+            } else {
+                let mut c = cands.clone();
+                rng.shuffle(&mut c);
+                c.truncate(1 + rng.usize_below(cands.len()));
+                c
+            };
+            actions.push(Action::Local { sessions, op });
+        }
+        if !burst || rng.chance(0.2) {
+            match rng.below(10) {
+                0..=4 => {}
+                5..=7 => actions.push(Action::Yield(1 + rng.below(3) as u8)),
+                _ => actions.push(Action::Quiesce),
+            }
+        }
+    }
+    FlowSpec {
+        flow_no,
+        mt,
+        topics,
+        live,
+        created_before_subscribe,
+        n_ops: op_topic.len(),
+        actions,
+    }
+}
+
+// ------------------------------------------------------------------------------------------
+// Observation log
+// ------------------------------------------------------------------------------------------
+
+#[derive(Clone, Debug, Serialize)]
+enum Obs {
+    InjectRemote { session: usize },
+    InjectLocal { session: usize },
+    Sent { session: usize },
+    Received { session: usize },
+    Manager { session: u64 },
+    /// The manager side (forwarding or `session_handle`) put the operation into the session's
+    /// live channel (observed by a tap between the manager's sender and the session's receiver).
+    Handed { session: usize },
+}
+
+#[derive(Default)]
+struct Log {
+    /// global order of everything observed about an operation
+    per_op: BTreeMap<Hash, Vec<(u64, Obs)>>,
+    seq: u64,
+    live_started: BTreeSet<usize>,
+    ended: BTreeSet<usize>,
+    sync_msgs_sent: u64,
+    close_msgs_sent: u64,
+    manager_items: u64,
+    session_events: u64,
+}
+
+impl Log {
+    fn push(&mut self, h: Hash, o: Obs) {
+        self.seq += 1;
+        let s = self.seq;
+        self.per_op.entry(h).or_default().push((s, o));
+    }
+}
+
+type Shared = Arc<Mutex<Log>>;
+
+struct RecSink {
+    session: usize,
+    log: Shared,
+}
+
+impl Sink<Msg> for RecSink {
+    type Error = ();
+    fn poll_ready(self: Pin<&mut Self>, _: &mut Context<'_>) -> Poll<Result<(), ()>> {
+        Poll::Ready(Ok(()))
+    }
+    fn start_send(self: Pin<&mut Self>, item: Msg) -> Result<(), ()> {
+        let mut l = self.log.lock().unwrap();
+        match item {
+            Msg::Live(header, _) => l.push(header.hash(), Obs::Sent {
+                session: self.session,
+            }),
+            Msg::Sync(_) => l.sync_msgs_sent += 1,
+            Msg::Close => l.close_msgs_sent += 1,
+        }
+        Ok(())
+    }
+    fn poll_flush(self: Pin<&mut Self>, _: &mut Context<'_>) -> Poll<Result<(), ()>> {
+        Poll::Ready(Ok(()))
+    }
+    fn poll_close(self: Pin<&mut Self>, _: &mut Context<'_>) -> Poll<Result<(), ()>> {
+        Poll::Ready(Ok(()))
+    }
+}
+
+// ------------------------------------------------------------------------------------------
+// The ledger predicate
+// ------------------------------------------------------------------------------------------
+
+#[derive(Default, Clone)]
+struct Counts {
+    inj_remote: Vec<u32>,
+    inj_local: Vec<u32>,
+    sent: Vec<u32>,
+    ev: Vec<u32>,
+    handed: Vec<u32>,
+    mgr: u32,
+}
+
+fn counts(n: usize, obs: &[(u64, Obs)]) -> Counts {
+    let mut c = Counts {
+        inj_remote: vec![0; n],
+        inj_local: vec![0; n],
+        sent: vec![0; n],
+        ev: vec![0; n],
+        handed: vec![0; n],
+        mgr: 0,
+    };
+    for (_, o) in obs {
+        match o {
+            Obs::InjectRemote { session } => c.inj_remote[*session] += 1,
+            Obs::InjectLocal { session } => c.inj_local[*session] += 1,
+            Obs::Sent { session } => c.sent[*session] += 1,
+            Obs::Received { session } => c.ev[*session] += 1,
+            Obs::Manager { .. } => c.mgr += 1,
+            Obs::Handed { session } => c.handed[*session] += 1,
+        }
+    }
+    c
+}
+
+struct OpMeta {
+    hash: Hash,
+    topic: usize,
+    /// sessions that were live members of the topic when the op was first injected and still are
+    /// at the end (a session that left in between is not judged for this op)
+    expect: Vec<usize>,
+}
+
+/// Liveness clauses (4, 5). `None` = complete.
+fn incomplete(n: usize, meta: &OpMeta, obs: &[(u64, Obs)]) -> Option<(String, String)> {
+    let c = counts(n, obs);
+    for &s in &meta.expect {
+        if c.inj_remote[s] > 0 && c.sent[s] + c.ev[s] == 0 {
+            return Some((
+                "C23:received-op-swallowed".into(),
+                format!(
+                    "the remote of session {s} sent the operation; the session neither reported \
+                     it nor had sent it before"
+                ),
+            ));
+        }
+    }
+    let accepted = c.ev.iter().any(|&e| e > 0);
+    if accepted {
+        for &s in &meta.expect {
+            if c.ev[s] == 0 && c.sent[s] == 0 {
+                return Some((
+                    "C23:not-forwarded-to-live-session".into(),
+                    format!(
+                        "the operation was received by a session of the topic but live session \
+                         {s} of the same topic never sent it to its remote"
+                    ),
+                ));
+            }
+        }
+        if c.mgr == 0 {
+            return Some((
+                "C23:manager-stream-never-reported".into(),
+                "the operation was received by a session but never appeared on the manager \
+                 event stream"
+                    .into(),
+            ));
+        }
+    }
+    None
+}
+
+/// Safety clauses (1, 2, 3, mgr <= 1).
+fn unsafe_obs(
+    n: usize,
+    topics: &[usize],
+    meta: &OpMeta,
+    obs: &[(u64, Obs)],
+) -> Vec<(String, String)> {
+    let c = counts(n, obs);
+    let mut v = Vec::new();
+    for s in 0..n {
+        if topics[s] != meta.topic && c.sent[s] > 0 {
+            v.push((
+                "C23:forwarded-across-topics".into(),
+                format!("session {s} belongs to another topic and sent the operation"),
+            ));
+            continue;
+        }
+        if c.sent[s] > 1 {
+            v.push((
+                "C23:sent-more-than-once".into(),
+                format!(
+                    "session {s} sent the operation {} times within its de-duplication window",
+                    c.sent[s]
+                ),
+            ));
+        }
+        if c.sent[s] >= 1 && c.ev[s] >= 1 {
+            let first_sent = obs
+                .iter()
+                .find(|(_, o)| matches!(o, Obs::Sent { session } if *session == s))
+                .map(|(q, _)| *q)
+                .unwrap();
+            let first_ev = obs
+                .iter()
+                .find(|(_, o)| matches!(o, Obs::Received { session } if *session == s))
+                .map(|(q, _)| *q)
+                .unwrap();
+            if first_ev < first_sent {
+                v.push((
+                    "C23:sent-back-to-source-peer".into(),
+                    format!(
+                        "session {s} accepted the operation from its remote and afterwards sent \
+                         it to that same remote"
+                    ),
+                ));
+            } else {
+                v.push((
+                    "C23:accepted-after-sending".into(),
+                    format!(
+                        "session {s} had already sent the operation to its remote and still \
+                         reported the remote's copy as newly received"
+                    ),
+                ));
+            }
+        }
+        if c.ev[s] > 1 {
+            v.push((
+                "C23:session-reported-twice".into(),
+                format!("session {s} reported the operation {} times", c.ev[s]),
+            ));
+        }
+    }
+    // Clause 6 (mechanism level, see module docs): what the manager side hands to session s is at
+    // most one copy per *other* session that reported the operation, plus local publishes to s.
+    for s in 0..n {
+        let others: u32 = (0..n).filter(|&x| x != s).map(|x| c.ev[x]).sum();
+        if c.handed[s] > others + c.inj_local[s] {
+            v.push((
+                "C23:manager-handed-op-back-to-reporting-session".into(),
+                format!(
+                    "session {s} was handed the operation {} times by the manager side, but only \
+                     {others} reports by other sessions and {} local publishes account for it: \
+                     the manager forwarded the operation back to the session that reported it",
+                    c.handed[s], c.inj_local[s]
+                ),
+            ));
+        }
+    }
+    if c.mgr > 1 {
+        v.push((
+            "C23:manager-stream-reported-twice".into(),
+            format!("the manager event stream yielded the operation {} times", c.mgr),
+        ));
+    }
+    v
+}
+
+// ------------------------------------------------------------------------------------------
+// Running one flow
+// ------------------------------------------------------------------------------------------
+
+struct FlowResult {
+    spec_summary: Value,
+    nontrivial_key: Option<(u64, u64)>,
+    violations: Vec<(String, String, Value)>,
+    /// further violations of this flow, counted without a witness
+    more: Vec<(String, String)>,
+    inconclusive: Option<String>,
+    stats: BTreeMap<&'static str, u64>,
+    sample: Value,
+}
+
+fn make_ops(rng: &mut Rng, n: usize, tag: &str) -> Vec<Operation<usize>> {
+    // a handful of authors, each with its own log
+    let authors: Vec<SigningKey> = (0..3)
+        .map(|_| SigningKey::from_bytes(&rng.array32()))
+        .collect();
+    let mut next: Vec<(u32, Option<Hash>)> = vec![(0, None); authors.len()];
+    (0..n)
+        .map(|i| {
+            let a = rng.usize_below(authors.len());
+            let body = Body::new(format!("{tag}-{i}").as_bytes());
+            let (seq, backlink) = next[a];
+            let (header, _) = create_operation(&authors[a], &body, seq, backlink, a);
+            next[a] = (seq + 1, Some(header.hash()));
+            Operation {
+                hash: header.hash(),
+                header,
+                body: Some(body),
+            }
+        })
+        .collect()
+}
+
+async fn wait_until(
+    what: &str,
+    limit: Duration,
+    mut cond: impl FnMut() -> bool,
+) -> Result<(), String> {
+    let start = Instant::now();
+    let mut spins = 0u32;
+    while !cond() {
+        if start.elapsed() > limit {
+            return Err(format!("watchdog: {what} not reached within {limit:?}"));
+        }
+        spins += 1;
+        if spins < 50 {
+            tokio::task::yield_now().await;
+        } else {
+            tokio::time::sleep(Duration::from_micros(300)).await;
+        }
+    }
+    Ok(())
+}
+
+async fn play(spec: &FlowSpec, seed: u64) -> FlowResult {
+    let n = spec.topics.len();
+    let mut rng = Rng::fork(seed ^ 0x0c23_0c23, spec.flow_no);
+    let mut peer = Peer {
+        store: SqliteStore::temporary().await,
+        signing_key: SigningKey::from_bytes(&rng.array32()),
+    };
+    let topic_ids = [Topic::from(rng.array32()), Topic::from(rng.array32())];
+    for t in &topic_ids {
+        peer.associate(t, &BTreeMap::new()).await;
+    }
+    let ops = make_ops(&mut rng, spec.n_ops, "op");
+    let markers = make_ops(&mut rng, n, "marker");
+
+    let log: Shared = Default::default();
+    let mut manager = TestTopicSyncManager::new(peer.store.clone());
+    let mut remote_tx: Vec<Option<mpsc::UnboundedSender<Msg>>> = Vec::new();
+    let mut tasks = Vec::new();
+    let mut mgr_stream = None;
+
+    for s in 0..=n {
+        if s == spec.created_before_subscribe {
+            let mut stream = manager.subscribe();
+            let log = log.clone();
+            let (tx, rx) = tokio::sync::oneshot::channel::<()>();
+            mgr_stream = Some(tx);
+            tasks.push(tokio::spawn(async move {
+                let mut rx = rx;
+                loop {
+                    tokio::select! {
+                        item = stream.next() => {
+                            let Some(item) = item else { break };
+                            let mut l = log.lock().unwrap();
+                            l.manager_items += 1;
+                            if let TopicLogSyncEvent::OperationReceived { operation, .. } = &item.event {
+                                l.push(operation.hash, Obs::Manager { session: item.session_id });
+                            }
+                        }
+                        _ = &mut rx => break,
+                    }
+                }
+            }));
+        }
+        if s == n {
+            break;
+        }
+        let remote_key = SigningKey::from_bytes(&rng.array32());
+        let config = SessionConfig {
+            topic: topic_ids[spec.topics[s]],
+            remote: remote_key.verifying_key(),
+            live_mode: spec.live[s],
+        };
+        let mut session = manager.session(s as u64, &config).await;
+        let mut ev_rx = session.event_tx.subscribe();
+        // Tap between the manager-side sender and the session's live receiver (both are public
+        // fields): records what the manager side hands to this session, keeps FIFO order.
+        if let Some(mut orig_rx) = session.live_mode_rx.take() {
+            let (mut tap_tx, tap_rx) = mpsc::channel(1028);
+            session.live_mode_rx = Some(tap_rx);
+            let tap_log = log.clone();
+            tasks.push(tokio::spawn(async move {
+                while let Some(m) = orig_rx.next().await {
+                    if let ToSync::Payload(op) = &m {
+                        tap_log.lock().unwrap().push(op.hash, Obs::Handed { session: s });
+                    }
+                    if tap_tx.send(m).await.is_err() {
+                        break;
+                    }
+                }
+            }));
+        }
+        let (tx, rx) = mpsc::unbounded::<Msg>();
+        tx.unbounded_send(Msg::Sync(LogSyncMessage::Have(BTreeMap::new())))
+            .unwrap();
+        tx.unbounded_send(Msg::Sync(LogSyncMessage::Done)).unwrap();
+        remote_tx.push(Some(tx));
+        let sink_log = log.clone();
+        let end_log = log.clone();
+        tasks.push(tokio::spawn(async move {
+            let mut sink = RecSink {
+                session: s,
+                log: sink_log,
+            };
+            let mut stream = rx.map(Ok::<_, ()>);
+            let _ = session.run(&mut sink, &mut stream).await;
+            end_log.lock().unwrap().ended.insert(s);
+        }));
+        let ev_log = log.clone();
+        tasks.push(tokio::spawn(async move {
+            loop {
+                match ev_rx.recv().await {
+                    Ok(ev) => {
+                        let mut l = ev_log.lock().unwrap();
+                        l.session_events += 1;
+                        match ev {
+                            TopicLogSyncEvent::LiveModeStarted => {
+                                l.live_started.insert(s);
+                            }
+                            TopicLogSyncEvent::OperationReceived { operation, .. } => {
+                                l.push(operation.hash, Obs::Received { session: s });
+                            }
+                            _ => {}
+                        }
+                    }
+                    Err(broadcast::error::RecvError::Lagged(_)) => {}
+                    Err(broadcast::error::RecvError::Closed) => break,
+                }
+            }
+        }));
+    }
+
+    let live_sessions: Vec<usize> = (0..n).filter(|&s| spec.live[s]).collect();
+    let mut result = FlowResult {
+        spec_summary: json!({
+            "flow_no": spec.flow_no, "mode": if spec.mt { "mt" } else { "paused" },
+            "session_topics": spec.topics, "session_live": spec.live,
+            "created_before_subscribe": spec.created_before_subscribe,
+            "ops": spec.n_ops, "actions": spec.actions.len(),
+        }),
+        nontrivial_key: None,
+        violations: Vec::new(),
+        more: Vec::new(),
+        inconclusive: None,
+        stats: BTreeMap::new(),
+        sample: Value::Null,
+    };
+
+    // Barrier: every live session is in live mode (store access is over from here on).
+    {
+        let log = log.clone();
+        let want = live_sessions.len();
+        if let Err(e) = wait_until("LiveModeStarted on every live session", Duration::from_secs(60), || {
+            log.lock().unwrap().live_started.len() >= want
+        })
+        .await
+        {
+            result.inconclusive = Some(e);
+            return result;
+        }
+    }
+    if !spec.mt {
+        tokio::time::pause();
+    }
+
+    // Book-keeping of what was injected.
+    let mut metas: BTreeMap<usize, OpMeta> = BTreeMap::new();
+    let mut gone: BTreeSet<usize> = BTreeSet::new();
+    let mut injected_remote = 0u64;
+    let mut injected_local = 0u64;
+    let mut quiesce_points = 0u64;
+
+    macro_rules! quiesce {
+        ($metas:expr) => {{
+            quiesce_points += 1;
+            if spec.mt {
+                let log = log.clone();
+                let metas_ref: Vec<(&usize, &OpMeta)> = $metas.iter().collect();
+                let r = wait_until("ledger completeness", Duration::from_secs(30), || {
+                    let l = log.lock().unwrap();
+                    metas_ref.iter().all(|(_, m)| {
+                        let obs = l.per_op.get(&m.hash).map(|v| v.as_slice()).unwrap_or(&[]);
+                        let expect: Vec<usize> =
+                            m.expect.iter().copied().filter(|s| !gone.contains(s)).collect();
+                        let mm = OpMeta { hash: m.hash, topic: m.topic, expect };
+                        incomplete(n, &mm, obs).is_none()
+                    })
+                })
+                .await;
+                r
+            } else {
+                tokio::time::sleep(Duration::from_millis(20)).await;
+                Ok::<(), String>(())
+            }
+        }};
+    }
+
+    for action in &spec.actions {
+        match action {
+            Action::Remote { session, op } => {
+                let o = &ops[*op];
+                metas.entry(*op).or_insert_with(|| OpMeta {
+                    hash: o.hash,
+                    topic: spec.topics[*session],
+                    expect: (0..n)
+                        .filter(|&s| {
+                            spec.topics[s] == spec.topics[*session]
+                                && spec.live[s]
+                                && !gone.contains(&s)
+                        })
+                        .collect(),
+                });
+                log.lock().unwrap().push(o.hash, Obs::InjectRemote { session: *session });
+                if let Some(tx) = &remote_tx[*session] {
+                    let _ = tx.unbounded_send(Msg::Live(o.header.clone(), o.body.clone()));
+                }
+                injected_remote += 1;
+            }
+            Action::Local { sessions, op } => {
+                let o = &ops[*op];
+                let t = spec.topics[sessions[0]];
+                metas.entry(*op).or_insert_with(|| OpMeta {
+                    hash: o.hash,
+                    topic: t,
+                    expect: (0..n)
+                        .filter(|&s| spec.topics[s] == t && spec.live[s] && !gone.contains(&s))
+                        .collect(),
+                });
+                for &s in sessions {
+                    log.lock().unwrap().push(o.hash, Obs::InjectLocal { session: s });
+                    if let Some(mut h) = manager.session_handle(s as u64).await {
+                        let _ = h.send(ToSync::Payload(o.clone())).await;
+                    }
+                    injected_local += 1;
+                }
+            }
+            Action::Yield(k) => {
+                for _ in 0..*k {
+                    tokio::task::yield_now().await;
+                }
+            }
+            Action::Quiesce => {
+                if let Err(e) = quiesce!(metas) {
+                    result.inconclusive = Some(e);
+                    return result;
+                }
+            }
+            Action::Leave { session } => {
+                if let Some(tx) = remote_tx[*session].take() {
+                    let _ = tx.unbounded_send(Msg::Close);
+                    // keep the sender alive until the session is gone
+                    let log = log.clone();
+                    let s = *session;
+                    if spec.mt {
+                        if let Err(e) = wait_until("leaving session ended", Duration::from_secs(30), || {
+                            log.lock().unwrap().ended.contains(&s)
+                        })
+                        .await
+                        {
+                            result.inconclusive = Some(e);
+                            return result;
+                        }
+                    } else {
+                        tokio::time::sleep(Duration::from_millis(20)).await;
+                    }
+                    drop(tx);
+                }
+                gone.insert(*session);
+            }
+        }
+    }
+
+    // Final quiescence.
+    let mut final_ok = quiesce!(metas);
+    let mut marker_metas: BTreeMap<usize, OpMeta> = BTreeMap::new();
+    if spec.mt && final_ok.is_ok() {
+        // FIFO flush: one marker through every live session.
+        for &s in &live_sessions {
+            if gone.contains(&s) {
+                continue;
+            }
+            let m = &markers[s];
+            marker_metas.insert(s, OpMeta {
+                hash: m.hash,
+                topic: spec.topics[s],
+                expect: (0..n)
+                    .filter(|&x| spec.topics[x] == spec.topics[s] && spec.live[x] && !gone.contains(&x))
+                    .collect(),
+            });
+            log.lock().unwrap().push(m.hash, Obs::InjectRemote { session: s });
+            if let Some(tx) = &remote_tx[s] {
+                let _ = tx.unbounded_send(Msg::Live(m.header.clone(), m.body.clone()));
+            }
+        }
+        final_ok = quiesce!(marker_metas);
+    }
+    if !spec.mt {
+        // a second, longer idle period: nothing may be left in any queue
+        tokio::time::sleep(Duration::from_secs(1)).await;
+    }
+    if let Err(e) = final_ok {
+        // In mt mode a missing forward cannot be told from a slow one: inconclusive. The safety
+        // clauses are still judged below on what was observed.
+        result.inconclusive = Some(e);
+    }
+
+    // Judge.
+    let l = log.lock().unwrap();
+    let mut per_sig: BTreeMap<String, u32> = BTreeMap::new();
+    let mut received_ops = 0u64;
+    let mut dup_ops = 0u64;
+    let mut forwards = 0u64;
+    let mut crossing = 0u64;
+    for (idx, m) in metas.iter().map(|(i, m)| (*i as i64, m)).chain(
+        marker_metas.iter().map(|(i, m)| (-(*i as i64) - 1, m)),
+    ) {
+        let obs = l.per_op.get(&m.hash).map(|v| v.as_slice()).unwrap_or(&[]);
+        let c = counts(n, obs);
+        if c.ev.iter().any(|&e| e > 0) {
+            received_ops += 1;
+        }
+        let injections: u32 = c.inj_remote.iter().sum::<u32>() + c.inj_local.iter().sum::<u32>();
+        if injections > 1 {
+            dup_ops += 1;
+        }
+        if c.ev.iter().filter(|&&e| e > 0).count() > 1 {
+            crossing += 1;
+        }
+        forwards += c.sent.iter().sum::<u32>() as u64;
+        let expect: Vec<usize> = m.expect.iter().copied().filter(|s| !gone.contains(s)).collect();
+        let mm = OpMeta {
+            hash: m.hash,
+            topic: m.topic,
+            expect,
+        };
+        let mut found = unsafe_obs(n, &spec.topics, &mm, obs);
+        if !spec.mt {
+            if let Some(f) = incomplete(n, &mm, obs) {
+                found.push(f);
+            }
+        }
+        for (sig, what) in found {
+            // full witnesses for the first three violations of a signature in this flow; the
+            // rest is only counted (the report keeps three witnesses per signature anyway)
+            let k = per_sig.entry(sig.clone()).or_insert(0u32);
+            *k += 1;
+            if *k > 3 {
+                result.more.push((sig, what));
+                continue;
+            }
+            result.violations.push((sig, what, json!({
+                "seed": seed, "flow": result.spec_summary,
+                "operation": if idx >= 0 { json!(idx) } else { json!(format!("marker-{}", -idx - 1)) },
+                "operation_topic": m.topic,
+                "expected_live_members": mm.expect,
+                "sessions_gone": gone,
+                "trace_of_this_operation_in_global_order": obs,
+                "actions": spec.actions,
+            })));
+        }
+    }
+    // observations about operations nobody injected (cannot happen with an honest harness)
+    let known: BTreeSet<Hash> = metas
+        .values()
+        .chain(marker_metas.values())
+        .map(|m| m.hash)
+        .collect();
+    for (h, obs) in l.per_op.iter() {
+        if !known.contains(h) {
+            result.violations.push((
+                "C23:unknown-operation-observed".into(),
+                "an operation nobody injected was observed".into(),
+                json!({"seed": seed, "flow": result.spec_summary, "trace": obs}),
+            ));
+        }
+    }
+
+    result.stats.insert("ops_injected", metas.len() as u64);
+    result.stats.insert("remote_injections", injected_remote);
+    result.stats.insert("local_publishes", injected_local);
+    result.stats.insert("ops_accepted_by_some_session", received_ops);
+    result.stats.insert("ops_injected_more_than_once", dup_ops);
+    result.stats.insert("ops_accepted_by_two_or_more_sessions_concurrently", crossing);
+    result.stats.insert("live_messages_sent_by_sessions", forwards);
+    result.stats.insert("manager_stream_items", l.manager_items);
+    result.stats.insert("session_events", l.session_events);
+    result.stats.insert("quiescence_points", quiesce_points);
+    result.stats.insert("sessions", n as u64);
+    result.stats.insert("sessions_left", gone.len() as u64);
+    result.stats.insert(if spec.mt { "flows_mt" } else { "flows_paused" }, 1);
+
+    // non-trivial: at least one op was accepted and forwarded, and at least one duplicate arrived
+    if received_ops > 0 && forwards > 0 && dup_ops > 0 && result.inconclusive.is_none() {
+        let shape = vh_common::hash_of(&format!("{:?}", spec.actions));
+        result.nontrivial_key = Some((spec.flow_no, shape));
+    }
+    if spec.flow_no < 2 {
+        let first = metas.values().next();
+        result.sample = json!({
+            "flow": result.spec_summary,
+            "first_actions": spec.actions.iter().take(12).collect::<Vec<_>>(),
+            "trace_of_first_operation": first.and_then(|m| l.per_op.get(&m.hash)),
+            "stats": result.stats,
+        });
+    }
+    drop(l);
+
+    // Teardown.
+    if !spec.mt {
+        tokio::time::resume();
+    }
+    drop(mgr_stream);
+    for t in tasks {
+        t.abort();
+    }
+    result
+}
+
+fn run_flow(seed: u64, flow_no: u64, tier: Tier, force_mt: Option<bool>) -> FlowResult {
+    let spec = gen_flow(seed, flow_no, tier, force_mt);
+    let rt = if spec.mt {
+        tokio::runtime::Builder::new_multi_thread()
+            .worker_threads(3)
+            .enable_all()
+            .build()
+            .unwrap()
+    } else {
+        tokio::runtime::Builder::new_current_thread()
+            .enable_all()
+            .build()
+            .unwrap()
+    };
+    let r = rt.block_on(play(&spec, seed));
+    rt.shutdown_background();
+    r
+}
+
+enum Job {
+    Flow(FlowResult),
+    Window(crate::c23w::WinResult),
+}
+
+pub fn run(args: &Args) {
+    let rule = "case = one seeded multi-session live-mode flow through the real TopicSyncManager \
+                (2-5 live sessions on topic A, 1-2 on topic B, optional non-live session, \
+                sessions created before/after subscribe, 20-200 operations injected by remotes \
+                or published locally, re-injected from other sessions with no gap / yields / \
+                quiescence in between, a remote leaving); non-trivial = some operation was \
+                accepted from a remote and forwarded and at least one duplicate injection \
+                happened and the flow reached quiescence; distinct = distinct action schedules. \
+                Second workload: one session with a window of 1-8 operations, arrivals from \
+                application and remote over a small alphabet, one at a time; non-trivial = a \
+                duplicate inside the window was suppressed and the window evicted at least once";
+    let flows = args.n(600, 20_000);
+    let mut rep = Report::new(args, rule, (flows / 2).max(20));
+    let force_mt = match args.param("mode") {
+        Some("mt") => Some(true),
+        Some("paused") => Some(false),
+        _ => None,
+    };
+
+    let next = Arc::new(AtomicU64::new(0));
+    let (tx, rx) = std::sync::mpsc::channel::<Job>();
+    // second workload: single sessions with small de-duplication windows (see c23w.rs)
+    let windows = args.n(150, 5_000);
+    let stride = ((flows + windows) / windows).max(2);
+    let workers = args.param_u64("workers", 8) as usize;
+    let deadline = Instant::now()
+        + match args.tier {
+            Tier::Quick => Duration::from_secs(80),
+            Tier::Thorough => Duration::from_secs(28 * 60),
+        };
+    let seed = args.seed;
+    let tier = args.tier;
+    let mut handles = Vec::new();
+    for _ in 0..workers {
+        let next = next.clone();
+        let tx = tx.clone();
+        handles.push(std::thread::spawn(move || {
+            loop {
+                let i = next.fetch_add(1, Ordering::SeqCst);
+                if i >= flows + windows || Instant::now() > deadline {
+                    break;
+                }
+                // window cases are interleaved with the flows (one after every few flows)
+                let r = if i % stride == stride - 1 && i / stride < windows {
+                    Job::Window(crate::c23w::run_case(seed, i / stride))
+                } else {
+                    Job::Flow(run_flow(seed, i, tier, force_mt))
+                };
+                if tx.send(r).is_err() {
+                    break;
+                }
+            }
+        }));
+    }
+    drop(tx);
+
+    let mut totals: BTreeMap<&'static str, u64> = BTreeMap::new();
+    let mut flows_done = 0u64;
+    let mut more: Vec<(String, String)> = Vec::new();
+    let mut windows_done = 0u64;
+    for job in rx {
+        let r = match job {
+            Job::Flow(r) => r,
+            Job::Window(w) => {
+                windows_done += 1;
+                rep.case(w.key);
+                for (k, v) in w.stats {
+                    *totals.entry(k).or_insert(0) += v;
+                }
+                if let Some(t) = w.inconclusive {
+                    rep.inconclusive(t);
+                }
+                for (sig, what, wit) in w.violations {
+                    rep.violation(&sig, what, wit);
+                }
+                continue;
+            }
+        };
+        flows_done += 1;
+        rep.case(r.nontrivial_key);
+        for (k, v) in r.stats {
+            *totals.entry(k).or_insert(0) += v;
+        }
+        if let Some(t) = r.inconclusive {
+            rep.inconclusive(t);
+            *totals.entry("flows_inconclusive").or_insert(0) += 1;
+        }
+        if !r.sample.is_null() {
+            rep.sample(r.sample);
+        }
+        for (sig, what, wit) in r.violations {
+            rep.violation(&sig, what, wit);
+        }
+        more.extend(r.more);
+    }
+    for (sig, what) in more {
+        rep.violation(&sig, what, Value::Null);
+    }
+    for h in handles {
+        let _ = h.join();
+    }
+    if flows_done + windows_done < flows + windows {
+        rep.inconclusive(format!(
+            "time budget reached after {flows_done} flows and {windows_done} window cases of \
+             {flows} + {windows}"
+        ));
+    }
+    rep.extra("window_cases_run", json!(windows_done));
+    rep.extra("flows_run", json!(flows_done));
+    for (k, v) in totals {
+        rep.extra(k, json!(v));
+    }
+    rep.extra(
+        "dedup_window_note",
+        json!("TopicSyncManager::session always builds sessions with the default window (1024); \
+               every flow stays below 256 distinct operations, so all judged duplicates are \
+               within the window"),
+    );
+    rep.finish(args);
+}
